@@ -69,6 +69,11 @@ func main() {
 		}
 		return
 	}
+	if *prop == "ALL" {
+		// developer mode (allcheck.sh, corpus replays): one load, every property's rules, no mutant self-tests.
+		// Registered MANIFEST commands never use it; each property has its own process there.
+		os.Exit(runAll(*tier, *repo, *verif, *quiet))
+	}
 	pc := registry[*prop]
 	if pc == nil {
 		fmt.Fprintf(os.Stderr, "unknown property %q\n", *prop)
@@ -298,4 +303,54 @@ func lastLines(s string, n int) string {
 		ls = ls[len(ls)-n:]
 	}
 	return strings.Join(ls, " | ")
+}
+
+func runAll(tier, repo, verif string, quiet bool) int {
+	absRepo, _ := filepath.Abs(repo)
+	c, err := loadRepo(absRepo, nil, false)
+	if err != nil {
+		fmt.Printf("LOAD-ERROR %v\n", err)
+		return 1
+	}
+	c.Tier = tier
+	theCtx = c
+	af := filepath.Join(verif, "anchors.json")
+	if _, err := os.Stat(af); err != nil {
+		if exe, err2 := os.Executable(); err2 == nil {
+			af = filepath.Join(filepath.Dir(filepath.Dir(exe)), "anchors.json")
+		}
+	}
+	buildAliases(c, af)
+	buildCanonNames(c)
+	kf, err := loadKnown(filepath.Join(verif, "known_findings.json"))
+	if err != nil {
+		fmt.Fprintln(os.Stderr, "known_findings.json:", err)
+		return 2
+	}
+	var ids []string
+	for id := range registry {
+		ids = append(ids, id)
+	}
+	sort.Strings(ids)
+	rc := 0
+	for _, id := range ids {
+		fmt.Printf("=== %s\n", id)
+		r := newReport(id, tier, 0, c)
+		r.quiet = quiet
+		r.Known = kf
+		c.R = r
+		func() {
+			defer func() {
+				if p := recover(); p != nil {
+					r.add(Obligation{Rule: id + "-ENGINE", Construct: "analysis-panic", At: "-", Verdict: "violation",
+						Why: fmt.Sprintf("analysis panicked: %v\n%s", p, debug.Stack()), Nontrivial: true})
+				}
+			}()
+			registry[id].Run(c, r)
+		}()
+		if r.Finish(verif) != 0 {
+			rc = 1
+		}
+	}
+	return rc
 }
